@@ -10,6 +10,7 @@
 Multiset equality of table contents and RETURNING rows are NOT decided.
 """
 import dmlrules, common
+from model import CheckError
 
 TOLERATED = {
     "execute_update_with_from": "same reader shape as execute_update; not demonstrated",
@@ -49,3 +50,24 @@ def run(ctx):
     # T4 (shared with C10 X2): UPDATE removes the old index entry before inserting the new one — with the reverse order an UPDATE
     # that rewrites an indexed column with its current value drops the row's only entry and a later INSERT of that key is accepted.
     dmlrules.index_delete_before_insert(ctx, "T4.DELETE-THEN-INSERT", [dmlrules.ENTRIES["update"]])
+    answers_from_scan(ctx)
+
+
+def answers_from_scan(ctx):
+    """T5 ANSWER-FROM-SCAN: DELETE and UPDATE report rows_affected / RETURNING from what the scan of the table B-tree found.  An index
+    probe may narrow the scan to one key, but a miss in an index proves nothing (the probe key is built from the literal's type, the
+    index from the stored value's; indexes can lag): every construction of the statement's Ok result is reached only through a
+    cursor over the table (cursor_first / cursor_seek)."""
+    m = ctx.m
+    for e, variant in (("delete", "Delete"), ("update", "Update")):
+        f = m.fn(dmlrules.ENTRIES[e])
+        res = [(bb, s[3]) for bb, b in enumerate(f.blocks) for s in b["s"]
+               if s[0] == "=" and s[2][0] == "agg" and s[2][1] == "adt" and s[2][2].endswith("ExecuteResult") and s[2][3] == variant]
+        scans = [c.bb for c in f.calls if c.name.startswith("btree::") and c.name.rsplit("::", 1)[-1] in ("cursor_first", "cursor_seek")]
+        if not res or not scans:
+            raise CheckError("%s: result construction / table scan not found" % e)
+        reach = f.reachable([0], blocked=scans)
+        bad = [(bb, l) for bb, l in res if bb in reach]
+        ctx.ob("T5.ANSWER-FROM-SCAN", e, not bad, "every result is produced after a cursor over the table (%d result site(s))" % len(res) if not bad else
+               "%s can return its result (L%s) without opening a cursor on the table: an index miss or another shortcut is taken as proof that "
+               "no row matches" % (e.upper(), bad[0][1]), "%s:%s" % (f.file, bad[0][1] if bad else f.line))
